@@ -718,7 +718,7 @@ theorem replay_wait (rem : Cid → Bool) (R : TRec) (hO : TOrd R) (hC : PClosed 
       s.ver = some (tipOf R B) → s.isOpen = false → s.pending = none →
       s.rq.q = respItemsW rem (m :: pre' ++ tl) seen w →
       s.rq.q.length + 1 ≤ fuel →
-      (s.unfollowed = [] ∨ ∀ x ∈ m :: pre' ++ tl, below s.unfollowed x.path = false) →
+      (s.unfollowed = [] ∨ ∀ x ∈ tl, below s.unfollowed x.path = false) →
       (∀ x ∈ m :: pre', holds s.store x.cid = true) →
       (∀ x ∈ m :: pre', rem x.cid = false → x.path ≠ []) →
       (∀ c ∈ seen, holds s.store c = true) →
@@ -783,9 +783,7 @@ theorem replay_wait (rem : Cid → Bool) (R : TRec) (hO : TOrd R) (hC : PClosed 
           · simp only [obs]
             refine ⟨by rw [e4, h1q]; rfl, ?_⟩
             rw [e5, h1unf]
-            rcases hstale with h | h
-            · exact Or.inl h
-            · exact Or.inr (fun x hx => h x (by simp [hx]))
+            exact hstale
         · simpa using href0
       | cons m2 pre'' =>
         simp only [List.length_cons] at hk
@@ -793,11 +791,7 @@ theorem replay_wait (rem : Cid → Bool) (R : TRec) (hO : TOrd R) (hC : PClosed 
           (h1rec.trans hrec) hR3 hB2 h1ver (h1open.trans hclosed) (h1pend.trans hnopend)
           (by rw [h1q])
           (by rw [h1q]; rw [hq] at hfuel; simp at hfuel ⊢; omega)
-          (by
-            rw [h1unf]
-            rcases hstale with h | h
-            · exact Or.inl h
-            · exact Or.inr (fun x hx => h x (by simp only [List.cons_append, List.mem_cons] at hx ⊢; exact Or.inr hx)))
+          (by rw [h1unf]; exact hstale)
           (by rw [h1st]; intro x hx; exact hheld x (List.mem_cons_of_mem _ hx))
           (fun x hx => hnepath x (List.mem_cons_of_mem _ hx))
           (by rw [h1st]; exact hseen1)
@@ -920,7 +914,7 @@ theorem replay_wait (rem : Cid → Bool) (R : TRec) (hO : TOrd R) (hC : PClosed 
           (by rw [h1q, ← hq']; rw [hq] at hfuel; simp at hfuel ⊢; omega)
           (by
             rw [h1unf]
-            refine Or.inr (fun x hx => hwfK x (by rw [hskipC]; exact hx)))
+            refine Or.inr (fun x hx => hwfK x (by rw [hskipC]; exact List.mem_append_right _ hx)))
           (by rw [h1st]; intro x hx; exact hheld x (List.mem_cons_of_mem _ (hsubmem x hx)))
           (fun x hx => hnepath x (List.mem_cons_of_mem _ (hsubmem x hx)))
           (by rw [h1st]; exact hseen)
@@ -1032,6 +1026,75 @@ theorem run_of_waitRemote_idem (s sB : State) (wt : Wait) (h1 : waitRemote (s.rq
 theorem prologue_none (s : State) (h : s.mra = none) : prologue s = s := by
   unfold prologue; rw [h]
 
+/-- **going online over a recorded, fully delivered prefix** — the loader-level core of
+    `complete_prefix`, for any store and any loader state that has just gone (back) online: the
+    traversal record is that of the loads `root :: pre'` (all delivered, their blocks in the store),
+    no attempt is pending, the verifier is fresh, and the queue holds the honest response for a skip
+    window of `w` entries none of which is needed (`hwin`).  Then the next load — at `n`, after the
+    replay of the record — starts a continuation whose results, appended to the recorded prefix, are
+    the reference traversal over the current store.  (Also the shape of a resumed request whose
+    loads so far were all successful: C06 `reopen`.) -/
+theorem replay_walk (rem : Cid → Bool) (s : State) (root : LNode) (pre' : LT) (n : LNode) (post : LT) (w : Nat)
+    (hwf : WF (root :: pre' ++ n :: post))
+    (hroot0 : root.path = []) (hne : ∀ m ∈ pre' ++ n :: post, m.path ≠ [])
+    (hdfs : PathsDFS ((root :: pre').map (·.path)))
+    (hrec : s.record = recOfLT (root :: pre')) (hmra : s.mra = none)
+    (hver : s.ver = some (newVerifier s.record)) (hclosed : s.isOpen = false) (hnopend : s.pending = none)
+    (hq : s.rq.q = respItemsW rem (root :: pre' ++ n :: post) [] w)
+    (hstale : s.unfollowed = [] ∨ ∀ x ∈ n :: post, below s.unfollowed x.path = false)
+    (hheld : ∀ m ∈ root :: pre', holds s.store m.cid = true)
+    (hremroot : rem root.cid = true)
+    (hwin : ∀ it ∈ s.rq.q.take w, it.action = .present → holds s.store it.link = true) :
+    (root :: pre').map (fun m => (m, true)) ++ (walk s (n :: post)).1 =
+      (refTrav rem (root :: pre' ++ n :: post) s.store none).1 ∧
+    ∀ c, holds (walk s (n :: post)).2.store c = holds (refTrav rem (root :: pre' ++ n :: post) s.store none).2 c := by
+  -- the record of the prefix
+  have hloads : loadsOf (root :: pre') = ([], (root.cid, true)) :: loadsOf pre' := by
+    simp [loadsOf, hroot0]
+  have hpaths : (loadsOf (root :: pre')).map (·.1) = (root :: pre').map (·.path) := by
+    unfold loadsOf; rw [List.map_map]; rfl
+  obtain ⟨pl, hinv⟩ := recOf_inv (root.cid, true) (loadsOf pre') (by
+    rw [← hloads, hpaths]; exact hdfs)
+  rw [← hloads, ← recOfLT_eq] at hinv
+  obtain ⟨hO, hC, ⟨Al, nl, hRl, _, hnll⟩, hlk, _⟩ := hinv
+  have hlast : ∃ A n, recOfLT (root :: pre') = A ++ [n] ∧ n.link ≠ none := ⟨Al, nl, hRl, hnll⟩
+  -- the verifier starts at the root
+  have htip0 : tipOf (recOfLT (root :: pre')) (recOfLT (root :: pre')) = some [] :=
+    tipOf_spec hO hC (A := []) (B := recOfLT (root :: pre')) rfl (hlk.trans hloads)
+  have hnv : newVerifier (recOfLT (root :: pre')) = some [] := by
+    obtain ⟨U, nm, B2, hB, hnmp, hnml, _⟩ := linkedOf_cons_split _ _ _ _ (hlk.trans hloads)
+    have := linkAt_at hO (A := U) hB
+    rw [hnmp, hnml] at this
+    unfold newVerifier
+    rw [appendUntilLink_linked [] _ this]
+  have hne' : ∀ m ∈ n :: post, m.path ≠ [] := fun m hm => hne m (List.mem_append_right _ hm)
+  have hdone := replay_wait rem (recOfLT (root :: pre')) hO hC hlast (n :: post) (pre'.length + 1) root pre' (by omega)
+    s [] (recOfLT (root :: pre')) none [] w (s.rq.q.length + 1)
+    hrec rfl hlk (by rw [hver, hrec, hnv, htip0]) hclosed hnopend hq (Nat.le_refl _) hstale hheld
+    (by
+      intro x hx hr
+      simp only [List.mem_cons] at hx
+      rcases hx with rfl | hx
+      · rw [hremroot] at hr; cases hr
+      · exact hne x (List.mem_append_left _ hx))
+    (by intro c hc; simp at hc) hwin hwf rfl
+  obtain ⟨sB, wt, dead', seen', w', g1, _, g3, g4, g5, _, g7, g8⟩ := hdone
+  have hrun : ∀ p c, run s p c = run sB p c := run_of_waitRemote_idem s sB wt g1 g3
+  have hload : load s n.path n.cid = load sB n.path n.cid := by
+    rw [load_eq, load_eq, prologue_none s hmra, prologue_none sB (g5.trans hmra)]
+    exact hrun _ _
+  have hwalk : walk s (n :: post) = walk sB (n :: post) := by
+    rw [walk, walk, hload]
+  rw [hwalk]
+  have hwftl : WF (n :: post) := WF.suffix (root :: pre') hwf
+  have hsim := walk_refTravW rem (n :: post).length (n :: post) (Nat.le_refl _) sB dead' seen' w' g7 hwftl hne'
+  rw [g4] at hsim
+  have g8' : refTrav rem (root :: pre' ++ n :: post) s.store none =
+      ((root :: pre').map (fun m => (m, true)) ++ (refTrav rem (n :: post) s.store dead').1,
+       (refTrav rem (n :: post) s.store dead').2) := g8
+  rw [g8']
+  exact ⟨by rw [hsim.1], hsim.2⟩
+
 /-- **C02.complete for a requestor with a locally loaded prefix (loader level).**
     The requestor holds the blocks of the first `N = |pre| ≥ 1` links `pre = root :: pre'` of the
     traversal and misses the next one, `n`.  It has loaded `pre` from its own store (recording them in
@@ -1073,58 +1136,12 @@ theorem complete_prefix (rem : Cid → Bool) (loc : List (Cid × Blk)) (root : L
   rw [honest_items_rebuiltW rem lt (pre'.length + 1)] at hs4'
   have hlocal := (local_walk loc (root :: pre') TRec.empty none hheld).1
   refine ⟨hlocal, hmissload, by rw [hs4']; rfl, ?_⟩
-  -- the record of the prefix
-  have hloads : loadsOf (root :: pre') = ([], (root.cid, true)) :: loadsOf pre' := by
-    simp [loadsOf, hroot0]
-  have hpaths : (loadsOf (root :: pre')).map (·.1) = (root :: pre').map (·.path) := by
-    unfold loadsOf; rw [List.map_map]; rfl
-  obtain ⟨pl, hinv⟩ := recOf_inv (root.cid, true) (loadsOf pre') (by
-    rw [← hloads, hpaths]; exact hdfs)
-  rw [← hloads, ← recOfLT_eq] at hinv
-  obtain ⟨hO, hC, ⟨Al, nl, hRl, _, hnll⟩, hlk, _⟩ := hinv
-  have hlast : ∃ A n, recOfLT (root :: pre') = A ++ [n] ∧ n.link ≠ none := ⟨Al, nl, hRl, hnll⟩
-  -- the verifier starts at the root
-  have htip0 : tipOf (recOfLT (root :: pre')) (recOfLT (root :: pre')) = some [] :=
-    tipOf_spec hO hC (A := []) (B := recOfLT (root :: pre')) rfl (hlk.trans hloads)
-  have hnv : newVerifier (recOfLT (root :: pre')) = some [] := by
-    obtain ⟨U, nm, B2, hB, hnmp, hnml, _⟩ := linkedOf_cons_split _ _ _ _ (hlk.trans hloads)
-    have := linkAt_at hO (A := U) hB
-    rw [hnmp, hnml] at this
-    unfold newVerifier
-    rw [appendUntilLink_linked [] _ this]
-  -- the state the retried load starts from
   let sA : State := { store := loc, record := recOfLT (root :: pre'), mra := none, unfollowed := [], isOpen := false,
-                      ver := some (some []), rq := { q := items }, pending := none }
-  have hsA : ({ s4 with mra := none } : State) = sA := by rw [hs4', hnv]
+                      ver := some (newVerifier (recOfLT (root :: pre'))), rq := { q := items }, pending := none }
+  have hsA : ({ s4 with mra := none } : State) = sA := by rw [hs4']
   rw [hsA]
-  have hne' : ∀ m ∈ n :: post, m.path ≠ [] := fun m hm => hne m (List.mem_append_right _ hm)
-  have hdone := replay_wait rem (recOfLT (root :: pre')) hO hC hlast (n :: post) (pre'.length + 1) root pre' (by omega)
-    sA [] (recOfLT (root :: pre')) none [] (pre'.length + 1) (sA.rq.q.length + 1)
-    rfl rfl hlk (by rw [htip0]) rfl rfl rfl (Nat.le_refl _) (Or.inl rfl) hheld
-    (by
-      intro x hx hr
-      simp only [List.mem_cons] at hx
-      rcases hx with rfl | hx
-      · rw [hremroot] at hr; cases hr
-      · exact hne x (List.mem_append_left _ hx))
-    (by intro c hc; simp at hc) hwin hwf rfl
-  obtain ⟨sB, wt, dead', seen', w', g1, _, g3, g4, g5, _, g7, g8⟩ := hdone
-  have hrun : ∀ p c, run sA p c = run sB p c := run_of_waitRemote_idem sA sB wt g1 g3
-  have hload : load sA n.path n.cid = load sB n.path n.cid := by
-    rw [load_eq, load_eq, prologue_none sA rfl, prologue_none sB (g5.trans rfl)]
-    exact hrun _ _
-  have hwalk : walk sA (n :: post) = walk sB (n :: post) := by
-    rw [walk, walk, hload]
-  rw [hwalk]
-  have hwftl : WF (n :: post) := WF.suffix (root :: pre') hwf
-  have hsim := walk_refTravW rem (n :: post).length (n :: post) (Nat.le_refl _) sB dead' seen' w' g7 hwftl hne'
-  have g4' : sB.store = loc := g4
-  rw [g4'] at hsim
-  have g8' : refTrav rem lt loc none =
-      ((root :: pre').map (fun m => (m, true)) ++ (refTrav rem (n :: post) loc dead').1,
-       (refTrav rem (n :: post) loc dead').2) := g8
-  rw [g8']
-  exact ⟨by rw [hsim.1], hsim.2⟩
+  exact replay_walk rem sA root pre' n post (pre'.length + 1) hwf hroot0 hne hdfs rfl rfl rfl rfl rfl rfl
+    (Or.inl rfl) hheld hremroot hwin
 
 /-- if the responder holds every block of the locally loaded prefix, its skip window is exactly
     that prefix: every entry in the window is held by the requestor -/
